@@ -353,6 +353,82 @@ fn subsume_guards(repo: &Path) -> Result<String, String> {
     Ok(out)
 }
 
+/// C03: which timestamp `run_rules_impl` (egglog-bridge/src/lib.rs) hands to
+/// `add_rules_from_cached` as the semi-naive frontier of a rule, and whether it advances the
+/// rule's own `last_run_at` to `next_ts` in the same loop.
+fn semi_frontier(repo: &Path) -> Result<String, String> {
+    use quote::ToTokens;
+    let src = std::fs::read_to_string(repo.join("egglog-bridge/src/lib.rs")).map_err(|e| e.to_string())?;
+    let file = syn::parse_file(&src).map_err(|e| e.to_string())?;
+    let body = find_fn(&file, "run_rules_impl").ok_or("fn run_rules_impl not found")?;
+    // the `for rule in rules { .. }` loop that contains the add_rules_from_cached call
+    struct L {
+        out: Option<(String, bool, bool)>,
+        calls: usize,
+    }
+    impl<'ast> Visit<'ast> for L {
+        fn visit_expr_for_loop(&mut self, fl: &'ast syn::ExprForLoop) {
+            let pat = fl.pat.to_token_stream().to_string();
+            let over = fl.expr.to_token_stream().to_string().replace(' ', "");
+            struct C {
+                arg: Option<String>,
+                n: usize,
+                info_is_own: bool,
+                advances: bool,
+                pat: String,
+            }
+            impl<'ast> Visit<'ast> for C {
+                fn visit_expr_method_call(&mut self, c: &'ast syn::ExprMethodCall) {
+                    if c.method == "add_rules_from_cached" {
+                        self.n += 1;
+                        if c.args.len() == 3 {
+                            self.arg = Some(c.args[1].to_token_stream().to_string().replace(' ', ""));
+                        }
+                    }
+                    syn::visit::visit_expr_method_call(self, c);
+                }
+                fn visit_local(&mut self, l: &'ast syn::Local) {
+                    if let (syn::Pat::Ident(pi), Some(init)) = (&l.pat, &l.init) {
+                        if pi.ident == "info" {
+                            let t = init.expr.to_token_stream().to_string().replace(' ', "");
+                            self.info_is_own = t == format!("&mutrule_info[*{}]", self.pat) || t == format!("&rule_info[*{}]", self.pat);
+                        }
+                    }
+                    syn::visit::visit_local(self, l);
+                }
+                fn visit_expr_assign(&mut self, a: &'ast syn::ExprAssign) {
+                    let l = a.left.to_token_stream().to_string().replace(' ', "");
+                    let r = a.right.to_token_stream().to_string().replace(' ', "");
+                    if l == "info.last_run_at" && r == "next_ts" {
+                        self.advances = true;
+                    }
+                    syn::visit::visit_expr_assign(self, a);
+                }
+            }
+            let mut c = C { arg: None, n: 0, info_is_own: false, advances: false, pat: pat.clone() };
+            c.visit_block(&fl.body);
+            if c.n > 0 {
+                self.calls += c.n;
+                let own = over == "rules" && c.info_is_own && c.arg.as_deref() == Some("info.last_run_at");
+                self.out = Some((c.arg.unwrap_or_default(), own, c.advances && c.info_is_own));
+            }
+            syn::visit::visit_expr_for_loop(self, fl);
+        }
+    }
+    let mut l = L { out: None, calls: 0 };
+    l.visit_block(&body);
+    if l.calls != 1 {
+        return Err(format!("expected exactly one add_rules_from_cached call inside a for loop of run_rules_impl, found {}", l.calls));
+    }
+    let (arg, own, adv) = l.out.unwrap();
+    Ok(format!(
+        "(* egglog-bridge/src/lib.rs run_rules_impl: frontier argument `{}` *)\nInductive frontier_src := FOwnLastRun | FNotOwn.\nDefinition semi_frontier_src : frontier_src := {}.\nDefinition semi_frontier_advances_own : bool := {}.\n",
+        arg.replace("*)", "* )"),
+        if own { "FOwnLastRun" } else { "FNotOwn" },
+        adv
+    ))
+}
+
 /// C20: inventory of hash-container aliases (with their hashers) and of files that use the
 /// randomly seeded `std::collections::Hash{Map,Set}` / `RandomState` in non-test code.
 fn hash_inventory(repo: &Path) -> Result<String, String> {
@@ -537,6 +613,17 @@ pub fn generate(repo: &Path) -> (String, Vec<String>) {
         Err(e) => {
             out.push_str(&format!("(* collision_sites FAILED: {} *)\n", e.replace("*)", "* )")));
             rep.push(format!("{{\"item\":\"Facts.collision_sites\",\"file\":\"core-relations/src/table/mod.rs\",\"ok\":false,\"error\":{:?}}}", e));
+        }
+    }
+    match semi_frontier(repo) {
+        Ok(t) => {
+            out.push_str("\n");
+            out.push_str(&t);
+            rep.push("{\"item\":\"Facts.semi_frontier\",\"file\":\"egglog-bridge/src/lib.rs\",\"ok\":true}".to_string());
+        }
+        Err(e) => {
+            out.push_str(&format!("(* semi_frontier FAILED: {} *)\n", e.replace("*)", "* )")));
+            rep.push(format!("{{\"item\":\"Facts.semi_frontier\",\"file\":\"egglog-bridge/src/lib.rs\",\"ok\":false,\"error\":{:?}}}", e));
         }
     }
     match subsume_guards(repo) {
